@@ -64,6 +64,10 @@ type Diag struct {
 	Range    Range  `json:"range"`
 	Severity int    `json:"severity"`
 	Message  string `json:"message"`
+	Related  []struct {
+		Location Location `json:"location"`
+		Message  string   `json:"message"`
+	} `json:"relatedInformation,omitempty"`
 }
 type DiagPush struct {
 	URI   string
